@@ -285,6 +285,14 @@ class Interp:
                 else:
                     return UNK
                 return res if isinstance(op, (ast.Is, ast.Eq)) else (not res)
+            if isinstance(op, (ast.Eq, ast.NotEq)) and is_sym(a) and is_sym(b) and kind_of(a) == kind_of(b) and \
+                    not is_pending(a) and not is_pending(b):
+                # two grid quantities of the same kind compared for equality (a field with a snapshot of it taken
+                # before an adjuster ran, the new value with the current one): identical terms are equal, otherwise
+                # the path forks and the 'equal' arm carries the fact (exact equality implies closeness)
+                if a == b:
+                    return isinstance(op, ast.Eq)
+                return ("close" if isinstance(op, ast.Eq) else "nclose", a, b)
             self._no_state_in_unknown(e, p)
             return UNK
         ew = elementwise(e)
@@ -874,6 +882,34 @@ def simplify(v, rules: dict):
     return v
 
 
+def fact_rules(facts, rules0: dict, strict: bool = False) -> dict:
+    """Rewrite rules of a path: the consistency of the grid before the edit (`rules0`) plus the equalities its tests
+    established.  `new` found equal to an old value is replaced by it; a re-derived field found equal to its value
+    before the edit is replaced by that value, and — extent = n * sampling and sampling = extent / n being injective in
+    each operand (gpts = ceil(extent / sampling) is not) — the operand in which the two derivations differ is equal
+    too: extent / new == S0 == extent / G0 means new == G0."""
+    rules = dict(rules0)
+    for a, b in facts:
+        if b[0] == "atom" and b[2] == "new" and not (a[0] == "atom" and a[2] == "new"):
+            a, b = b, a
+        elif b[0] == "adj" and a[0] == "atom":
+            a, b = b, a
+        if a[0] == "atom" and a[2] == "new":
+            rules[a] = b  # `new` is numerically equal to an old value on this path
+        elif a[0] == "adj" and b[0] == "atom":
+            rules[a] = b
+            if a[1] != "G":
+                for k0, v0 in rules0.items():
+                    if v0 == b and k0[0] == "adj" and k0[1] == a[1]:
+                        for i, j in ((2, 3), (3, 2)):
+                            if a[i] == k0[i] and a[j] != k0[j] and a[j][0] == "atom" and a[j][2] == "new":
+                                rules[a[j]] = k0[j]
+        elif strict:
+            raise AnalysisError(f"an equality between {show(a)} and {show(b)} decides a branch of a Grid setter; the "
+                                "analyser cannot orient it")
+    return rules
+
+
 def consistent(E, G, S, rules: dict) -> bool:
     if NONE in (E, G, S):
         return True
@@ -975,14 +1011,8 @@ def run(ctx) -> None:
                         rules0[adj("S", init["_extent"], init["_gpts"])] = init["_sampling"]
                     for o in outs:
                         st["paths"] += 1
-                        rules = dict(rules0)
-                        for a, b in o.facts:
-                            # `new` is numerically equal to an old value on this path
-                            if a[0] == "atom" and a[2] == "new":
-                                rules[a] = b
-                            elif b[0] == "atom" and b[2] == "new":
-                                rules[b] = a
-                        fin = {f: simplify(o.fields[f], rules) for f in FIELDS}
+                        rules = fact_rules(o.facts, rules0)
+                        fin ={f: simplify(o.fields[f], rules) for f in FIELDS}
                         E, G, S = fin["_extent"], fin["_gpts"], fin["_sampling"]
                         state_txt = f"(E,G,S)=({show(E)}, {show(G)}, {show(S)})"
                         if o.status == "raise":
@@ -1004,7 +1034,7 @@ def run(ctx) -> None:
                             got = fin[_field_of(kind)]
                             okv = got == simplify(new, rules)
                             if not okv and kind == "S" and E != NONE:
-                                okv = got == adj("S", E, adj("G", E, new))
+                                okv = got in (adj("S", E, adj("G", E, new)), simplify(adj("S", E, adj("G", E, new)), rules))
                             if not okv:
                                 record("R-GRIDSTATE", setter, f"no-effect:{show(got)}",
                                        f"after `grid.{pname} = new` the {pname} field holds {show(got)}, not the "
